@@ -17,6 +17,10 @@
 (*    then a := FALSE ("cause the trigger to occur and then be reset")      *)
 (*  - wait takes effect only when ~a \/ g; wait_for returns 0 only when     *)
 (*    a /\ ~g; waitActivation only when a; wait_forActivation 0 only if ~a  *)
+(*  - a timed form can answer 0 only after it gave up (its time-out): codes  *)
+(*    13 / 15 are 3 / 5 after the give-up; before it only the answer 1 can   *)
+(*    take effect ("false only if the event had not happened when they gave  *)
+(*    up")                                                                   *)
 (***************************************************************************)
 EXTENDS Naturals, Integers, FiniteSets
 NONE == -1
@@ -32,9 +36,11 @@ Eff(c, t, o) ==
     CASE o = 0 -> {[a |-> TRUE, g |-> FALSE, st |-> [c.st EXCEPT ![t] = 0]]} \cup (IF c.a THEN {Set(c, t, 0)} ELSE {})
       [] o = 1 -> IF c.a THEN {[a |-> c.a, g |-> TRUE, st |-> [c.st EXCEPT ![t] = 1]]} ELSE {Set(c, t, 0)}
       [] o = 2 -> IF ~c.a \/ c.g THEN {Set(c, t, 1)} ELSE {}
-      [] o = 3 -> IF ~c.a \/ c.g THEN {Set(c, t, 1)} ELSE {Set(c, t, 0)}
+      [] o = 3 -> IF ~c.a \/ c.g THEN {Set(c, t, 1)} ELSE {}
+      [] o = 13 -> IF ~c.a \/ c.g THEN {Set(c, t, 1)} ELSE {Set(c, t, 0)}
       [] o = 4 -> IF c.a THEN {Set(c, t, 0)} ELSE {}
-      [] o = 5 -> IF c.a THEN {Set(c, t, 1)} ELSE {Set(c, t, 0)}
+      [] o = 5 -> IF c.a THEN {Set(c, t, 1)} ELSE {}
+      [] o = 15 -> IF c.a THEN {Set(c, t, 1)} ELSE {Set(c, t, 0)}
       [] o = 6 -> IF c.a THEN {Set(c, t, OPEN)} ELSE {Set(c, t, 0)}
       [] o = 7 -> {Set(c, t, B(c.a))}
       [] o = 8 -> {Set(c, t, B(c.g))}
@@ -52,6 +58,8 @@ Close(C, ops) == LET N == C \cup UNION {Succ(c, ops) : c \in C} IN IF N = C THEN
 LinInit(a0, T) == {[a |-> a0, g |-> FALSE, st |-> [t \in T |-> NONE]]}
 \* thread t calls an operation (ops already maps t to its code)
 LinCall(C, t, ops) == Close({Set(c, t, PEND) : c \in C}, ops)
+\* thread t's timed wait gave up (ops already maps t to its code + 10): answers 0 may take effect from now on
+LinGiveUp(C, ops) == Close(C, ops)
 \* normalised result: activate's result is unconstrained
 Norm(o, r) == IF o = 0 THEN 0 ELSE r
 \* thread t returns r from operation o
